@@ -17,7 +17,7 @@ pub const FILTER_ALPHA: &[char] = &['/', '+', '#', '$', 'a', '\0', '\u{e9}', '\u
 pub const FILTER_PREFIXES: &[&str] =
     &["", "$share/", "$share", "$shar", "$share/g/", "$share//", "$share/g", "$share/\u{e9}/", "$SYS/", "$Share/", "$share/g+/", "$share/\u{1F600}g/"];
 pub const NAME_ALPHA: &[char] = &['/', '+', '#', '$', 'a', 'S', '\0', '\u{e9}', '\u{1F600}'];
-pub const NAME_PREFIXES: &[&str] = &["", "$share/", "$SYS/", "$share", "$SYS", "$sys/", "$Share/"];
+pub const NAME_PREFIXES: &[&str] = &["", "$share/", "$SYS/", "$share", "$SYS", "$sys/", "$Share/", "$share/g/", "$share//"];
 
 pub fn nth_string(alpha: &[char], len: usize, mut idx: u64, prefix: &str) -> String {
     let mut s = String::with_capacity(prefix.len() + len * 4);
@@ -1369,6 +1369,92 @@ fn c17_population(input: &Input, ctx: &mut Ctx) -> CaseResult {
 
 pub const C17_POPULATION: Sub = Sub { name: "c17.population", f: c17_population };
 
+
+// ---------------------------------------------------------------------------------------
+// look-alikes of the reserved prefixes: only the literal, case-sensitive "$share/" introduces a shared subscription and
+// only "$SYS/" a system topic
+
+const LOOK_PREFIXES: [&str; 2] = ["$share/", "$SYS/"];
+const LOOK_TAILS: [&str; 3] = ["g/t", "x", "g/$SYS/t"];
+
+/// the prefix with its `pos`-th character replaced by `c`, followed by a tail
+fn lookalike(prefix: &str, pos: usize, c: char, tail: &str) -> String {
+    let mut s = String::with_capacity(16);
+    for (i, p) in prefix.chars().enumerate() {
+        s.push(if i == pos { c } else { p });
+    }
+    s.push_str(tail);
+    s
+}
+
+/// every case variant of the letters of both prefixes, in front of tails that tell a shared filter from a plain one
+pub fn case_variant_strings() -> Vec<Input> {
+    let mut v = Vec::new();
+    for prefix in LOOK_PREFIXES {
+        let letters: Vec<usize> = prefix.char_indices().filter(|(_, c)| c.is_ascii_alphabetic()).map(|(i, _)| i).collect();
+        for mask in 0..(1u32 << letters.len()) {
+            let mut b = prefix.as_bytes().to_vec();
+            for (k, &i) in letters.iter().enumerate() {
+                b[i] = if mask >> k & 1 == 1 { b[i].to_ascii_uppercase() } else { b[i].to_ascii_lowercase() };
+            }
+            let head = String::from_utf8(b).unwrap_or_default();
+            for tail in ["a", "g/t", "", "/t", "g/", "+/t", "g/#", "g/+", "g/$SYS/x", "#"] {
+                v.push(Input::Text(format!("{}{}", head, tail).into_bytes()));
+            }
+        }
+    }
+    v
+}
+
+/// nums = [first code point, count, which (16 / 17 / 18)]
+fn lookalike_block(input: &Input, ctx: &mut Ctx) -> CaseResult {
+    let n = input.nums();
+    let which = n[2];
+    let (mut chars, mut strings) = (0u64, 0u64);
+    for cp in n[0]..n[0] + n[1] {
+        let c = match char::from_u32(cp as u32) {
+            Some(c) => c,
+            None => continue,
+        };
+        chars += 1;
+        for prefix in LOOK_PREFIXES {
+            for (pos, orig) in prefix.chars().enumerate() {
+                // the packet paths too where the code point is congruent to the character modulo 256, a case variant
+                // of it, or simply small
+                let near = (cp as u32) % 256 == orig as u32 || c.to_lowercase().any(|x| x == orig.to_ascii_lowercase()) || c.to_uppercase().any(|x| x == orig.to_ascii_uppercase()) || cp < 0x180;
+                for tail in LOOK_TAILS {
+                    let s = lookalike(prefix, pos, c, tail);
+                    strings += 1;
+                    let r = match which {
+                        16 => check_filter(&s, near, false).map(|_| ()),
+                        17 => {
+                            if specpred::filter_valid(&s) {
+                                check_shared_parts(&s).map(|_| ())
+                            } else {
+                                Ok(())
+                            }
+                        }
+                        _ => check_name(&s, near, false).map(|_| ()),
+                    };
+                    if let Err(m) = r {
+                        ctx.refine = Some((if which == 16 { "c16.single" } else if which == 17 { "c17.single" } else { "c18.single" }, Input::Text(s.into_bytes())));
+                        return Err(Violation::new(format!("look-alike of {:?} with U+{:04X} at position {}: {}", prefix, cp, pos, m)));
+                    }
+                }
+            }
+        }
+    }
+    ctx.more_evals(strings.saturating_sub(1));
+    ctx.count_distinct(strings);
+    ctx.label_n("code-points", chars);
+    ctx.label_n("look-alike-strings", strings);
+    Ok(())
+}
+
+pub const C16_LOOKALIKE: Sub = Sub { name: "c16.prefix-lookalikes", f: lookalike_block };
+pub const C17_LOOKALIKE: Sub = Sub { name: "c17.prefix-lookalikes", f: lookalike_block };
+pub const C18_LOOKALIKE: Sub = Sub { name: "c18.prefix-lookalikes", f: lookalike_block };
+
 pub const C16_RUNS: Sub = Sub { name: "c16.runs", f: c16_runs };
 pub const C18_RUNS: Sub = Sub { name: "c18.runs", f: c18_runs };
 pub const C16_RANDOM: Sub = Sub { name: "c16.random-long", f: c16_random };
@@ -1384,7 +1470,7 @@ pub const C18_BLOCK: Sub = Sub { name: "c18.block", f: c18_block };
 pub const C18_SINGLE: Sub = Sub { name: "c18.single", f: c18_single };
 
 pub fn subs() -> Vec<Sub> {
-    vec![C17_POPULATION, C16_CODEPOINTS, C17_CODEPOINTS, C18_CODEPOINTS, C16_NESTED, C17_NESTED, C18_NESTED, C16_RUNS, C18_RUNS, C16_BLOCK, C16_SINGLE, C16_RANDOM, C17_BLOCK, C17_SINGLE, C17_TRIPLE, C17_RANDOM, C18_BLOCK, C18_SINGLE, C18_RANDOM]
+    vec![C16_LOOKALIKE, C17_LOOKALIKE, C18_LOOKALIKE, C17_POPULATION, C16_CODEPOINTS, C17_CODEPOINTS, C18_CODEPOINTS, C16_NESTED, C17_NESTED, C18_NESTED, C16_RUNS, C18_RUNS, C16_BLOCK, C16_SINGLE, C16_RANDOM, C17_BLOCK, C17_SINGLE, C17_TRIPLE, C17_RANDOM, C18_BLOCK, C18_SINGLE, C18_RANDOM]
 }
 
 const BLOCK: u64 = 4_096;
@@ -1420,6 +1506,9 @@ pub fn run_c16(env: &mut Env) -> RunResult {
         .map(|s| Input::Text(s.as_bytes().to_vec()))
         .collect();
     env.run_inputs(C16_SINGLE, &reg)?;
+    env.run_enum(C16_LOOKALIKE, CP_BLOCKS, true, |i| Input::Nums(vec![i * CP_BLOCK, CP_BLOCK, 16]))?;
+    env.require("c16.prefix-lookalikes", "look-alike-strings");
+    env.run_inputs(C16_SINGLE, &case_variant_strings())?;
     env.run_enum(C16_CODEPOINTS, CP_BLOCKS, true, |i| Input::Nums(vec![i * CP_BLOCK, CP_BLOCK]))?;
     env.require("c16.codepoints", "valid");
     env.require("c16.codepoints", "invalid");
@@ -1456,6 +1545,9 @@ pub fn run_c17(env: &mut Env) -> RunResult {
         .map(|s| Input::Text(s.as_bytes().to_vec()))
         .collect();
     env.run_inputs(C17_SINGLE, &reg)?;
+    env.run_enum(C17_LOOKALIKE, CP_BLOCKS, true, |i| Input::Nums(vec![i * CP_BLOCK, CP_BLOCK, 17]))?;
+    let cv: Vec<Input> = case_variant_strings().into_iter().filter(|i| std::str::from_utf8(i.bytes()).map(specpred::filter_valid).unwrap_or(false)).collect();
+    env.run_inputs(C17_SINGLE, &cv)?;
     env.run_enum(C17_CODEPOINTS, CP_BLOCKS, true, |i| Input::Nums(vec![i * CP_BLOCK, CP_BLOCK]))?;
     env.require("c17.codepoints", "shared-filters");
     let nb = nested_blocks(FILTER_ALPHA.len(), FILTER_PREFIXES.len(), env.tier.sel(3, 4));
@@ -1481,6 +1573,8 @@ pub fn run_c18(env: &mut Env) -> RunResult {
     env.run_enum(C18_BLOCK, n, true, move |i| b[i as usize].clone())?;
     env.run_inputs(C18_SINGLE, &long_names())?;
     env.run_inputs(C18_SINGLE, &deep_strings(false))?;
+    env.run_enum(C18_LOOKALIKE, CP_BLOCKS, true, |i| Input::Nums(vec![i * CP_BLOCK, CP_BLOCK, 18]))?;
+    env.run_inputs(C18_SINGLE, &case_variant_strings())?;
     env.run_enum(C18_CODEPOINTS, CP_BLOCKS, true, |i| Input::Nums(vec![i * CP_BLOCK, CP_BLOCK]))?;
     env.require("c18.codepoints", "valid");
     env.require("c18.codepoints", "invalid");
